@@ -6,6 +6,9 @@ CONSTANTS Src = {"v","b","g","r","h","y","e","s","z"}
           Gated = {"g","y","z"}
           MaxH = 1
           EmitOn = "off"
+          GovChains = {"b","e","g","h","r","s","t","v","w","y","z"}
+          RelayOn = TRUE
+          Silent = {"v","r"}
 CONSTRAINT HighWater
 PROPERTY PropC21
 POSTCONDITION Accepted
